@@ -29,24 +29,24 @@ import (
 )
 
 type efCall struct {
-	g, idx  int
-	key     int
-	style   string
-	wait    time.Duration
-	preY    int
-	workY   int
-	postY   int
-	skip    bool
-	dual    bool // Options only: resolve is called from two goroutines at once, with different values
+	g, idx int
+	key    int
+	style  string
+	wait   time.Duration
+	preY   int
+	workY  int
+	postY  int
+	skip   bool
+	dual   bool // Options only: resolve is called from two goroutines at once, with different values
 	// many-keys scenario: the work function of this call returns only after the key burst has drained and the
 	// follow-up call has been announced / this call is made only once the burst has drained
 	waitBurst  bool
 	afterBurst bool
 	invoked    int64
-	got     *bigbuff.ExclusiveOutcome
-	nGot    int
-	closed  bool
-	ran     int64 // how many times its closure was executed
+	got        *bigbuff.ExclusiveOutcome
+	nGot       int
+	closed     bool
+	ran        int64 // how many times its closure was executed
 }
 
 // efRes is what a dual-resolving work function resolves with: both goroutines name the execution, each its own variant
